@@ -1,4 +1,4 @@
-import NomtModel.Core.MultiAlign
+import NomtModel.Core.MultiTotal
 import NomtModel.Core.TermHasher
 import NomtModel.Core.Complete
 /-!
@@ -63,21 +63,8 @@ every verified depth (true for 256-bit keys: `depth ≤ |terminal path| ≤ 256`
 theorem T18_2_multi_lookups_total (mp : MultiProof Node VH) (root : Node) (v : VerifiedMulti Node VH)
     (hv : verifyMulti H mp root = .ok v) (key : Key) (hk : ∀ vp ∈ v.inner, vp.depth ≤ key.length) (vh : VH) :
     (findIndexFor v key).isPanic = false ∧ (confirmValue v key vh).isPanic = false ∧
-    (confirmNonexistence v key).isPanic = false := by
-  have hfi := findIndexFor_no_panic H mp root v hv key hk
-  refine ⟨hfi, ?_, ?_⟩
-  · cases h : findIndexFor v key with
-    | ok i =>
-      obtain ⟨vp, hget, _⟩ := findIndexFor_ok v key i h
-      simp [confirmValue, h, confirmValueInner, getIdx_some _ _ _ _ hget, Outcome.isPanic]
-    | err e => simp [confirmValue, h, Outcome.isPanic]
-    | panic s => rw [h] at hfi; simp [Outcome.isPanic] at hfi
-  · cases h : findIndexFor v key with
-    | ok i =>
-      obtain ⟨vp, hget, _⟩ := findIndexFor_ok v key i h
-      simp [confirmNonexistence, h, confirmNonexistenceInner, getIdx_some _ _ _ _ hget, Outcome.isPanic]
-    | err e => simp [confirmNonexistence, h, Outcome.isPanic]
-    | panic s => rw [h] at hfi; simp [Outcome.isPanic] at hfi
+    (confirmNonexistence v key).isPanic = false :=
+  multi_lookups_total H mp root v hv key hk vh
 
 /-- T7.1 **alignment**: whatever object the prover supplied and whatever the root, every path of an
 accepted multi-proof was hashed to the root along the first `depth` bits of its own terminal path
